@@ -21,6 +21,8 @@ def dictD (op : String) (args : List Nat) : Option String :=
       | none => reject
   | "closest" => some <| match runP (do
         let norm ← pBool; let q ← pText; let es ← pList (pPair pText pNat); let obs ← pOpt pNat
+        -- (the query as the caller spelled it, before the normalisation the real code applies: not used by the model)
+        let _raw ← pNats
         pure (norm, q, es, obs)) args with
       | some (norm, q, es, obs) =>
         match closestSpec q es norm, obs with
